@@ -4,6 +4,6 @@ CONSTANTS Cids <- MCCids2
           MaxCalls = 2
           MaxActive = 1
           MaxDl = 1
-INVARIANTS TypeOK RejectedNeverTouched OnlyRequested GetBlockExact SelfCertified CachedBeforeHandOff LocalNotFetched
+INVARIANTS TypeOK RejectedNeverTouched OnlyRequested GetBlockExact SelfCertified CachedBeforeHandOff ReadyCached LocalNotFetched
            P_RejectedNeverTouched P_OnlyRequested P_GetBlockExact P_SelfCertified
 CHECK_DEADLOCK FALSE
